@@ -46,6 +46,11 @@ func mutationsFor(s *Site) []Mutation {
 		if orig != "" && strings.ToUpper(orig[:1]) != orig[:1] {
 			ms = append(ms, Mutation{Name: "case-variant", Frag: q(strings.ToUpper(orig[:1]) + orig[1:]), MustReject: true})
 		}
+		if s.Kind == "root.metricKeys[]" || s.Kind == "byKeySet.keys[]" {
+			// the field is renamed consistently (declaration and every reference) to a name that cannot be part of a
+			// Prometheus label name; key and metric-key fields become labels "key_<name>"
+			ms = append(ms, Mutation{Name: "non-label-name", Op: "renameall", Frag: orig + "-x"})
+		}
 		return ms
 	case "schemadecl":
 		return withWrongKinds(rep("empty", `""`), Mutation{Name: "duplicate", Op: "dupname"})
